@@ -1,6 +1,7 @@
 package mon
 
 import (
+	"encoding/binary"
 	"encoding/json"
 	"fmt"
 	"math/big"
@@ -245,6 +246,7 @@ func (m *C14Mon) OnBlock(blk *hist.Block) []Finding {
 		ids[id] = true
 	}
 	finalisedConfig := 0
+	distributedNow := new(big.Int) // escrow emptied by finalisations of this block
 	for id := range ids {
 		pp, cp := prev[id], cur[id]
 		if pp != nil && cp != nil && phase(pp) == "voting" {
@@ -335,6 +337,7 @@ func (m *C14Mon) OnBlock(blk *hist.Block) []Finding {
 		want := new(big.Int).Add(pe, get(contribNow, id))
 		want.Sub(want, get(withdrawNow, id))
 		if to == "finalised" && from != "finalised" {
+			distributedNow.Add(distributedNow, pe)
 			// distribution empties the escrow; it may not hand out more than was there
 			if ce.Sign() != 0 {
 				out = append(out, Finding{"C14", "C14/funds/escrow-left-after-finalisation", fmt.Sprintf("block %d: proposal %s finalised but %s is still in escrow", blk.H, id[:10], ce)})
@@ -350,6 +353,35 @@ func (m *C14Mon) OnBlock(blk *hist.Block) []Finding {
 			}
 		} else if ce.Cmp(want) != 0 {
 			out = append(out, Finding{"C14", "C14/funds/escrow-accounting", fmt.Sprintf("block %d: escrow of proposal %s is %s; previous %s plus contributions %s minus withdrawals %s gives %s", blk.H, id[:10], ce, pe, get(contribNow, id), get(withdrawNow, id), want)})
+		}
+	}
+	// the validators' share of what was distributed in this block: all validator accounts together never gain more
+	// than the configured share of the escrows emptied (validator accounts are paid by nothing else unless a
+	// transaction of the block names them)
+	if distributedNow.Sign() > 0 {
+		share := validatorsShare(blk.Prev)
+		gained := new(big.Int)
+		named := false
+		n := 0
+		for va := range Validators(blk.Prev) {
+			n++
+			if d := new(big.Int).Sub(amountAt(blk.Cur, "b_"+va+"_OLT"), amountAt(blk.Prev, "b_"+va+"_OLT")); d.Sign() > 0 {
+				gained.Add(gained, d)
+			}
+			for _, t := range blk.Txs {
+				if t.Call.Code == 0 && t.Kind != "PROPOSAL_VOTE" && t.Kind != "ALLEGATION_VOTE" {
+					if pj, _ := json.Marshal(Payload(t.Bytes)); strings.Contains(string(pj), va) {
+						named = true
+					}
+				}
+			}
+		}
+		// (rounded up, one unit per validator record for the division)
+		allowed := new(big.Int).Mul(distributedNow, big.NewInt(int64(share*100)))
+		allowed.Div(allowed, big.NewInt(10000))
+		allowed.Add(allowed, big.NewInt(int64(n)+1))
+		if share > 0 && !named && gained.Cmp(allowed) > 0 {
+			out = append(out, Finding{"C14", "C14/funds/validators-paid-more-than-their-share", fmt.Sprintf("block %d: proposals holding %s in escrow were finalised; the %d validator accounts together gained %s, the validators' share (%.2f %%) is %s", blk.H, distributedNow, n, gained, share, allowed)})
 		}
 	}
 	// a proposal that is still being voted on at the end of a block is one the recorded votes do not decide
@@ -400,4 +432,40 @@ func first3(s []string) []string {
 		return s[:3]
 	}
 	return s
+}
+
+// validatorsShare: the largest validators' percentage any proposal type's fund distribution (passed or failed)
+// configures in the option record in force.
+func validatorsShare(s hist.State) float64 {
+	luh := uint64(0)
+	if b, ok := s["g_proposalOptions_defaultOptions"]; ok && len(b) == 8 {
+		luh = binary.LittleEndian.Uint64(b)
+	}
+	v, ok := s["g_"+string(rune(luh))+"_proposal"]
+	if !ok {
+		return 0
+	}
+	type dist struct {
+		Validators float64 `json:"validators"`
+	}
+	var set map[string]json.RawMessage
+	if json.Unmarshal(v, &set) != nil {
+		return 0
+	}
+	max := 0.0
+	for _, raw := range set {
+		var o struct {
+			P dist `json:"passedFundDistribution"`
+			F dist `json:"failedFundDistribution"`
+		}
+		if json.Unmarshal(raw, &o) == nil {
+			if o.P.Validators > max {
+				max = o.P.Validators
+			}
+			if o.F.Validators > max {
+				max = o.F.Validators
+			}
+		}
+	}
+	return max
 }
